@@ -201,19 +201,32 @@ theorem Cauchy_cdf_deriv_partial (d : Gen.Cauchy R) (x : ℝ) (hs : 0 < d.scale.
           + RealLike.ln d.scale) (RealLike.ln d.scale)) = true := by
         rw [R.lt_iff]; simp only [R.add_val, R.mul_val, R.sub_val, R.ln_val, R.abs_val, two_val]; linarith
       rw [if_neg hc']
-      simp only [R.neg_val, R.sub_val, R.add_val, R.lnPi_val, R.ln_val]
-      rw [log1pexp_val]
-      · simp only [R.add_val, R.mul_val, R.sub_val, R.ln_val, R.abs_val, two_val]
-        rw [show Real.log d.scale.val - (2 * (Real.log |x - d.loc.val| - Real.log d.scale.val)
-          + Real.log d.scale.val) = -u by simp only [hu]; ring,
-          show 2 * (Real.log |x - d.loc.val| - Real.log d.scale.val) + Real.log d.scale.val
-            = u + Real.log d.scale.val by simp only [hu]]
-        have : Real.log (1 + Real.exp u) = u + Real.log (1 + Real.exp (-u)) := by
-          rw [Real.exp_neg, ← Real.log_exp u, ← Real.log_mul (Real.exp_pos u).ne' (by positivity), Real.log_exp]
-          congr 1; field_simp; ring
-        rw [this]; ring
-      · simp only [R.add_val, R.mul_val, R.sub_val, R.ln_val, R.abs_val, two_val]; linarith
-      · simp only [R.add_val, R.mul_val, R.sub_val, R.ln_val, R.abs_val, two_val]; linarith
+      by_cases hc0 : 0 < u
+      · have hc'' : (RealLike.lt (RealLike.ln d.scale) ((2.0 : R) * (RealLike.ln (RealLike.abs ((⟨x⟩ : R) - d.loc))
+            - RealLike.ln d.scale) + RealLike.ln d.scale)) = true := by
+          rw [R.lt_iff]; simp only [R.add_val, R.mul_val, R.sub_val, R.ln_val, R.abs_val, two_val]; linarith
+        rw [if_pos hc'']
+        simp only [R.neg_val, R.sub_val, R.add_val, R.lnPi_val, R.ln_val]
+        rw [log1pexp_val]
+        · simp only [R.add_val, R.mul_val, R.sub_val, R.ln_val, R.abs_val, two_val]
+          rw [show Real.log d.scale.val - (2 * (Real.log |x - d.loc.val| - Real.log d.scale.val)
+            + Real.log d.scale.val) = -u by simp only [hu]; ring,
+            show 2 * (Real.log |x - d.loc.val| - Real.log d.scale.val) + Real.log d.scale.val
+              = u + Real.log d.scale.val by simp only [hu]]
+          have : Real.log (1 + Real.exp u) = u + Real.log (1 + Real.exp (-u)) := by
+            rw [Real.exp_neg, ← Real.log_exp u, ← Real.log_mul (Real.exp_pos u).ne' (by positivity), Real.log_exp]
+            congr 1; field_simp; ring
+          rw [this]; ring
+        · simp only [R.add_val, R.mul_val, R.sub_val, R.ln_val, R.abs_val, two_val]; linarith
+        · simp only [R.add_val, R.mul_val, R.sub_val, R.ln_val, R.abs_val, two_val]; linarith
+      · -- equal arguments of `logaddexp` (|x - loc| = scale): the repaired code returns `ln scale + ln 2`
+        have hu0 : u = 0 := le_antisymm (not_lt.mp hc0) (not_lt.mp hc)
+        have hc'' : ¬ (RealLike.lt (RealLike.ln d.scale) ((2.0 : R) * (RealLike.ln (RealLike.abs ((⟨x⟩ : R) - d.loc))
+            - RealLike.ln d.scale) + RealLike.ln d.scale)) = true := by
+          rw [R.lt_iff]; simp only [R.add_val, R.mul_val, R.sub_val, R.ln_val, R.abs_val, two_val]; linarith
+        rw [if_neg hc'']
+        simp only [R.neg_val, R.sub_val, R.add_val, R.lnPi_val, R.ln_val, R.ln2_val]
+        rw [hu0, Real.exp_zero]; norm_num
   have hval : Real.exp (Gen.Cauchy.ln_f_real d ⟨x⟩).val = cauchyPdf d.loc.val d.scale.val x := by
     have h1 : (0:ℝ) < 1 + Real.exp u := by positivity
     rw [hln, Real.exp_sub, Real.exp_neg, Real.exp_add, Real.exp_log hs, Real.exp_log h1, Real.exp_log Real.pi_pos,
